@@ -102,9 +102,10 @@ def gen_pair(rng, other):
         if f < 0.25:
             s = f"{d}/{m}/{y}"
             return s, s
+        # month names in lower case, capitalised (as the library prints them) and upper case
         if f < 0.8:
-            return f"{d} {rng.choice(en['months'][m-1])} {y}", f"{d} {rng.choice(ot['months'][m-1])} {y}"
-        return f"{d} {rng.choice(en['months'][m-1])}", f"{d} {rng.choice(ot['months'][m-1])}"
+            return f"{d} {recase(rng, rng.choice(en['months'][m-1]))} {y}", f"{d} {recase(rng, rng.choice(ot['months'][m-1]))} {y}"
+        return f"{d} {recase(rng, rng.choice(en['months'][m-1]))}", f"{d} {recase(rng, rng.choice(ot['months'][m-1]))}"
 
     if k < 0.25:
         ops_common = [o for o in "+-*/" if o in en["ops"] and o in ot["ops"]]
